@@ -146,7 +146,22 @@ Kinds ==
     Program(<<SInfer("x", ECallU("g", Sig(<<T_num>>, <<>>, T_num), <<Num(2)>>)), SAsg(EVar("x", T_num), EVar("x", T_num))>>,
             <<FuncDef("g", <<Param("n", T_num)>>, <<>>, T_num, <<SRetV(EBin("*", EVar("n", T_num), Num(2)), T_num)>>)>>, <<>>) }
 
-FamCases == {MkCase("FamCompile", "expr", R(e)) : e \in Exprs \cup ArrExprs}
+\* constants of different types that print alike (0 and "0", 2.5 and "2.5", true and "true"), each used where its
+\* type matters, in both textual orders: a constant keeps its own type and value wherever it is stored
+Clash == { [n |-> I(0), cp |-> <<48>>], [n |-> I(1), cp |-> <<49>>], [n |-> I(2), cp |-> <<50>>], [n |-> I(12), cp |-> <<49, 50>>], [n |-> Fin(5, 1), cp |-> <<50, 46, 53>>] }
+ClashNum(c) == <<SInfer("a", ENum(c.n)), SInfer("u", EBin("+", EVar("a", T_num), ENum(c.n))),
+                 SInfer("w", EBin("+", EIdx(EArr(<<ENum(c.n), Num(7)>>), Num(0)), EVar("a", T_num))), SInfer("f", EBin("==", EVar("a", T_num), ENum(c.n)))>>
+ClashStr(c) == <<SInfer("s", EStr(c.cp)), SInfer("t", EBin("+", EVar("s", T_str), EStr(<<120>>))), SInfer("cnt", Num(0)),
+                 SFor("ch", "str", <<EStr(c.cp)>>, <<SAsg(EVar("cnt", T_num), EBin("+", EVar("cnt", T_num), Num(1))), SAsg(EVar("t", T_str), EBin("+", EVar("t", T_str), EVar("ch", T_str)))>>),
+                 SInfer("m", EMap(<<<<107>>>>, <<EStr(c.cp)>>)), SInfer("v", EBin("+", EDot(EVar("m", TMap(T_str)), <<107>>), EVar("s", T_str))),
+                 SInfer("e", EBin("==", EVar("s", T_str), EStr(c.cp))), SInfer("lt", EBin("<", EStr(c.cp), EStr(<<57>>)))>>
+ClashBool == { P1(<<SInfer("b", EBool(TRUE)), SInfer("s", EStr(<<116, 114, 117, 101>>)), SInfer("t", EBin("+", EVar("s", T_str), EStr(<<33>>))), SInfer("c", EBin("and", EVar("b", T_bool), EBool(TRUE)))>>),
+               P1(<<SInfer("s", EStr(<<102, 97, 108, 115, 101>>)), SInfer("b", EBool(FALSE)), SInfer("c", EBin("or", EVar("b", T_bool), EBool(FALSE))), SInfer("t", EBin("+", EStr(<<102, 97, 108, 115, 101>>), EVar("s", T_str)))>>) }
+ClashProgs == {P1(ClashNum(c) \o ClashStr(c)) : c \in Clash} \cup {P1(ClashStr(c) \o ClashNum(c)) : c \in Clash} \cup ClashBool
+              \cup {P1(<<SInfer("s", EStr(c.cp)), SInfer("cnt", Num(0)), SFor("", "str", <<EVar("s", T_str)>>, <<SAsg(EVar("cnt", T_num), EBin("+", EVar("cnt", T_num), Num(1)))>>),
+                          SFor("e", "arr", <<EArr(<<ENum(c.n), ENum(c.n)>>)>>, <<SAsg(EVar("cnt", T_num), EBin("+", EVar("cnt", T_num), EVar("e", T_num)))>>)>>) : c \in Clash}
+
+FamCases == {MkCase("FamCompile", "expr", R(e)) : e \in Exprs \cup ArrExprs} \cup {MkCase("FamCompile", "constant-clash", p) : p \in ClashProgs}
             \cup {MkCase("FamCompile", "index/arr-read", p) : p \in IdxArrRead} \cup {MkCase("FamCompile", "index/str-read", p) : p \in IdxStrRead}
             \cup {MkCase("FamCompile", "index/ascii-read", p) : p \in IdxAsciiRead} \cup {MkCase("FamCompile", "index/arr-store", p) : p \in IdxArrStore}
             \cup {MkCase("FamCompile", "index/arr-slice", p) : p \in IdxArrSlice} \cup {MkCase("FamCompile", "index/str-slice", p) : p \in IdxStrSlice}
